@@ -576,7 +576,7 @@ class Measure(object):
           # TODO(fjord): Could be more smart about when to use sharps vs. flats
           # when there are enharmonic equivalents.
           if new_key > 6:
-            new_key %= -6
+            new_key -= 12
           self.key_signature.key = new_key
       else:
         # Ignore other tag types because they are not relevant to Magenta.
